@@ -356,7 +356,9 @@ fn vk_c09_decompose_check(w: &mut WaitingState<'static, u8>, group: &'static Cho
     let mut aborted = false;
     let mut i = 0;
     while i < n {
-        if !aborted {
+        // an event that arrived more than the chord timeout after the chord's first key is not part of it
+        let outside = w.delay.saturating_sub(q[i].since) > w.timeout;
+        if !aborted && !outside {
             match q[i].event {
                 Event::Press(_, y) if y < 3 => {
                     let m = 1u128 << y;
@@ -435,26 +437,29 @@ fn c09_k3_decompose() {
     kani::cover!(ne == 0, "nothing defined");
 }
 
-// @harness name=c09_k3_decompose_small prop=C09 tier=quick timeout=2400
+// @harness name=c09_k3_decompose_small prop=C09,C02 tier=quick timeout=2400
+// @unwind_ok the decomposition loops run at most (number of distinct pressed keys = 3) + 1 iterations; unwind 5 suffices on terminating code
 // @encodes WaitingState::decompose_chord_into_action_queue
-// @bounds group {ab->X, c->Z, b->W} (abc, ac, bc, a undefined); starting key a; exactly 2 queued presses with symbolic chord-key coordinates (9 press orders); delay = 0
-// @assumes delay == 0
+// @bounds group {ab->X, c->Z, b->W} (abc, ac, bc, a undefined); starting key a; exactly 2 queued presses with symbolic chord-key coordinates (9 press orders) and symbolic ages; symbolic timeout / delay / ticks
+// @assumes delay + ticks <= 65535 (checked add in dev builds)
 // @spec as c09_k3_decompose
 #[kani::proof]
 #[kani::unwind(5)]
 fn c09_k3_decompose_small() {
     let group: &'static ChordsGroup<'static, u8> = &VK_CH_GROUP2;
     let mut w = vk_c09_waiting(group, (0, 0));
-    kani::assume(w.delay == 0);
+    kani::assume(w.delay as u32 + w.ticks as u32 <= u16::MAX as u32);
     let mut q = Queue::new();
     let y1: u16 = kani::any();
     let y2: u16 = kani::any();
     kani::assume(y1 < 3 && y2 < 3);
-    let _ = q.push_back(Queued { event: Event::Press(0, y1), since: 0 });
-    let _ = q.push_back(Queued { event: Event::Press(0, y2), since: 0 });
+    // symbolic ages: a queued press may lie outside the chord window (delay - since > timeout)
+    let _ = q.push_back(Queued { event: Event::Press(0, y1), since: kani::any() });
+    let _ = q.push_back(Queued { event: Event::Press(0, y2), since: kani::any() });
     let (ne, len) = vk_c09_decompose_check(&mut w, group, 0, &q);
     kani::cover!(ne == 2 && len == 3 && y1 == 1, "a b c -> ab + c");
     kani::cover!(ne == 2 && len == 3 && y1 == 2, "a c b -> c + b (a has no chord)");
     kani::cover!(ne == 1 && len == 2, "two keys, one action");
     kani::cover!(ne == 0, "nothing defined");
+    kani::cover!(len == 2 && y1 != 0 && y2 != 0 && y1 != y2, "a queued press outside the chord window is ignored");
 }
